@@ -205,7 +205,7 @@ pub fn par_case(prop: &'static str) -> impl Fn(&ParCase) -> CaseReport + Sync {
         let cfg = Cfg { mpp_timeout_s: 60, ..Cfg::default() };
         let need = needed_total(&cfg, 1_000_000);
         let payments: Vec<PaymentSpec> = (0..c.sets.len())
-            .map(|i| PaymentSpec { preimage: 0x60 + i as u8, invoice_amount: Some(1_000_000), tlv_amount: 1_000_000, hints: Hints::None, explicit_payee: false, recipient_ok: c.sets[i].1, drain_parts: 1 })
+            .map(|i| PaymentSpec { preimage_hi: 0, preimage: 0x60 + i as u8, invoice_amount: Some(1_000_000), tlv_amount: 1_000_000, hints: Hints::None, explicit_payee: false, recipient_ok: c.sets[i].1, drain_parts: 1 })
             .collect();
         let mut htlcs = vec![];
         for (i, (parts, _)) in c.sets.iter().enumerate() {
@@ -404,6 +404,126 @@ pub fn par_case(prop: &'static str) -> impl Fn(&ParCase) -> CaseReport + Sync {
         }
         rep
     }
+}
+
+/// MANY — a long history in one process: `payments` different invoices are paid one after the other in waves,
+/// then an HTLC arrives for each of the first `late` of them (a sender retry / a late part).
+#[derive(Clone, Debug, Serialize, Deserialize)]
+pub struct ManyCase {
+    pub payments: u16,
+    pub late: u16,
+    pub wave: u16,
+}
+
+pub fn many_case(c: &ManyCase) -> CaseReport {
+    let mut rep = CaseReport::default();
+    let cfg = Cfg { mpp_timeout_s: 60, ..Cfg::default() };
+    let need = needed_total(&cfg, 1_000_000);
+    let n = c.payments as usize;
+    let specs: Vec<PaymentSpec> = (0..n).map(|i| PaymentSpec { preimage_hi: 1 + (i / 250) as u8, preimage: (i % 250) as u8, invoice_amount: Some(1_000_000), tlv_amount: 1_000_000, hints: Hints::None, explicit_payee: false, recipient_ok: true, drain_parts: 1 }).collect();
+    // rendered one by one (scenario indices are bytes)
+    let render = |p: &PaymentSpec| {
+        let h = HtlcSpec { pay: 0, hash_of: None, amount_msat: need, total_msat: Some(need), forward_msat: Some(need), cltv_expiry: 1000 + 1200, cltv_rel: 1100, forward: false, meta: Meta::Normal, extra: vec![], raw_payload: None };
+        crate::props::c13::blank(vec![p.clone()], vec![h], 1).render(0)
+    };
+    let reqs: Vec<Value> = specs.iter().map(render).collect();
+    let ok: HashMap<[u8; 32], (bool, [u8; 32])> = specs.iter().map(|p| (p.hash(), (true, p.preimage_bytes()))).collect();
+    let pay = Arc::new(ParPay { stats: Mutex::new(HashMap::new()), ok, yields: 0 });
+    let store = Arc::new(ParStore { state: Mutex::new(HashMap::new()), yields: 0 });
+    let rt = tokio::runtime::Builder::new_multi_thread().worker_threads(8).enable_all().build().unwrap();
+    let pay2 = pay.clone();
+    let (wave, late) = (c.wave.max(1) as usize, (c.late as usize).min(n));
+    let out: Option<(Vec<Value>, Vec<Value>)> = rt.block_on(async move {
+        let mgr = Arc::new(HtlcManager::new(HtlcManagerParams {
+            allow_self_route_hints: true,
+            block_provider: Arc::new(Blocks),
+            cltv_delta: 34,
+            local_pubkey: local_pubkey(),
+            mpp_timeout: Duration::from_secs(60),
+            notification_service: Arc::new(NoNotif),
+            payment_provider: pay2,
+            routing_policy: TrampolineRoutingPolicy { fee_base_msat: 0, fee_proportional_millionths: 5000, cltv_expiry_delta: 1008 },
+            store,
+        }));
+        let run = |mgr: Arc<HtlcManager<Blocks, NoNotif, ParPay, ParStore>>, batch: Vec<Value>| async move {
+            let mut tasks = vec![];
+            for r in batch {
+                let mgr = mgr.clone();
+                tasks.push(tokio::spawn(async move {
+                    let req: HtlcAcceptedRequest = serde_json::from_value(r).unwrap();
+                    serde_json::to_value(mgr.handle_htlc(&req).await).unwrap()
+                }));
+            }
+            let mut v = vec![];
+            for t in tasks {
+                v.push(t.await.unwrap_or(json!({"panic": true})));
+            }
+            v
+        };
+        let all = async {
+            let mut first = vec![];
+            for chunk in reqs.chunks(wave) {
+                first.extend(run(mgr.clone(), chunk.to_vec()).await);
+            }
+            let second = run(mgr.clone(), reqs[..late].to_vec()).await;
+            (first, second)
+        };
+        tokio::time::timeout(Duration::from_secs(40), all).await.ok()
+    });
+    rt.shutdown_background();
+    match out {
+        None => {
+            rep.inconclusive = true;
+            rep.classes.push("timed_out(inconclusive)".into());
+        }
+        Some((first, second)) => {
+            use secp256k1::hashes::{sha256, Hash};
+            for (phase, answers) in [("first", &first), ("later", &second)] {
+                for (i, a) in answers.iter().enumerate() {
+                    if a.get("panic").is_some() {
+                        rep.violations.push(Violation::new("C06", "handler_panicked_in_long_history", format!("payment {i} ({phase} HTLC)")));
+                        continue;
+                    }
+                    if a["result"] == "resolve" {
+                        let key = hex::decode(a["payment_key"].as_str().unwrap_or("")).unwrap_or_default();
+                        if sha256::Hash::hash(&key).to_byte_array() != specs[i].hash() {
+                            rep.violations.push(Violation::new(
+                                "C01",
+                                "settled_with_preimage_of_another_payment_in_long_history",
+                                format!("after {} payments in one process, the {phase} HTLC of payment {i} was settled with key {} which does not hash to its payment hash", c.payments, a["payment_key"]),
+                            ));
+                        }
+                    } else {
+                        rep.violations.push(Violation::new("C05", "paid_invoice_not_settled_in_long_history", format!("the {phase} HTLC of payment {i} (funded, recipient pays out) was answered {a}")));
+                    }
+                }
+            }
+            let stats = pay.stats.lock().unwrap();
+            let again = specs.iter().filter(|p| stats.get(&p.hash()).map(|s| s.calls > 1).unwrap_or(false)).count();
+            if again > 0 {
+                rep.violations.push(Violation::new("C05", "paid_again_in_long_history", format!("{again} of {} invoices were paid twice", c.payments)));
+            }
+        }
+    }
+    rep.nontrivial = c.payments > 256 && c.late > 0;
+    rep.fingerprint = fp_of(&(c.payments, c.late, c.wave));
+    rep.classes.push(format!("one_process_{}_payments_then_{}_late_htlcs", c.payments, c.late));
+    rep.sample = Some(serde_json::to_value(c).unwrap());
+    rep
+}
+
+pub fn many_phase(s: &mut Session) {
+    s.assume("MANY phase: real multi-thread runtime with stub collaborators; a long history (hundreds of payments in one process) compressed into waves");
+    s.regress::<ManyCase, _>("par-many", many_case);
+    let mut cases = vec![ManyCase { payments: 300, late: 20, wave: 50 }, ManyCase { payments: 700, late: 300, wave: 100 }];
+    if s.tier == Tier::Thorough {
+        cases.extend([ManyCase { payments: 1100, late: 1100, wave: 64 }, ManyCase { payments: 5000, late: 200, wave: 500 }, ManyCase { payments: 257, late: 257, wave: 1 }]);
+    }
+    s.enumerate("hundreds-of-payments-in-one-process", "par-many", cases, many_case);
+}
+
+pub fn replay_many(c: Value) -> Option<CaseReport> {
+    Some(many_case(&serde_json::from_value(c).ok()?))
 }
 
 /// adds the PAR phase to a session (used by C02, C05, C06, C07, C11)
